@@ -481,3 +481,128 @@ func init() {
 		Faults: []string{"model chunking", "tool completion order", "step limit", "tool failure"},
 	})
 }
+
+// runC09React: one ReAct agent, several caller tasks at once (Generate and Stream mixed),
+// each with its own conversation; every caller must get what it would get alone.
+func runC09React(t *kernel.Tape, opt core.Opts) *core.Outcome {
+	o := &core.Outcome{}
+	p := drawReact(t)
+	p.failing = false
+	for _, sp := range p.specs {
+		sp.Fail = map[string]int{}
+	}
+	mcut, mpipe := t.Plan(4), t.PlanBool(50)
+	nc := 2 + t.Plan(2)
+	kinds := make([]int, nc)
+	for i := range kinds {
+		kinds[i] = t.Plan(2)
+	}
+	o.Sample = fmt.Sprintf("react-concurrent callers=%d kinds=%v tools=%s script=%v loop=%v maxStep=%d direct=%v strict=%v", nc, kinds, specsStr(p.specs), p.script, p.loop, p.maxStep, keys(p.direct), p.strict)
+	o.PlanHash = core.HashString(o.Sample)
+	s := kernel.New(t, 300)
+	defer s.Close()
+	s.KeepTrace = opt.KeepTrace
+	env := newEnv(s)
+	mdl := &simModel{env: env, script: p.script, loop: p.loop, cut: mcut, pipe: mpipe, strict: p.strict, yields: 1}
+	cfg := &react.AgentConfig{ToolCallingModel: mdl, ToolsConfig: compose.ToolsNodeConfig{Tools: env.build(p.specs)}, MaxStep: p.maxStep, ToolReturnDirectly: p.direct}
+	if !p.strict {
+		cfg.StreamToolCallChecker = wholeStreamChecker
+	}
+	ag, err := react.NewAgent(context.Background(), cfg)
+	if err != nil {
+		o.Infra = "NewAgent: " + err.Error()
+		return o
+	}
+	type result struct {
+		msg   *schema.Message
+		err   error
+		panic any
+		done  bool
+	}
+	results := make([]*result, nc)
+	inputs := make([][]*schema.Message, nc)
+	for i := 0; i < nc; i++ {
+		i := i
+		results[i] = &result{}
+		inputs[i] = []*schema.Message{schema.UserMessage(fmt.Sprintf("hello-%d", i))}
+		tag := fmt.Sprintf("r%d", i)
+		s.Go("caller"+tag, func() {
+			r := results[i]
+			defer func() {
+				if pn := recover(); pn != nil {
+					r.panic = pn
+				}
+				r.done = true
+			}()
+			ctx := withTag(context.Background(), tag)
+			if kinds[i] == 0 {
+				r.msg, r.err = ag.Generate(ctx, inputs[i])
+				return
+			}
+			sr, err := ag.Stream(ctx, inputs[i])
+			if err != nil {
+				r.err = err
+				return
+			}
+			var chunks []*schema.Message
+			for {
+				c, err := sr.Recv()
+				if err == io.EOF {
+					break
+				}
+				if err != nil {
+					r.err = err
+					break
+				}
+				chunks = append(chunks, c)
+			}
+			sr.Close()
+			if r.err == nil && len(chunks) > 0 {
+				r.msg, r.err = schema.ConcatMessages(chunks)
+			}
+		})
+	}
+	kr := s.Run(300000)
+	core.FinishKernel(o, s, kr, "C09")
+	if o.Infra != "" || kr.Budget {
+		return o
+	}
+	for i, r := range results {
+		tag := fmt.Sprintf("r%d", i)
+		if !r.done {
+			o.Violate("C09/hang", tag+" never returned; unfinished: "+strings.Join(kr.Unfinished, ",")+"\n"+blockedStacks(kr))
+			return o
+		}
+		if r.panic != nil {
+			o.Violate("C09/panic-escaped", fmt.Sprintf("%s: %v", tag, r.panic))
+			continue
+		}
+		ex := p.expect(inputs[i])
+		switch ex.err {
+		case "max-steps":
+			if r.err == nil || !errors.Is(r.err, compose.ErrExceedMaxSteps) {
+				o.Violate("C09/agent-result-differs-from-solo-run", fmt.Sprintf("%s: expected the step-limit error, got msg=%s err=%v", tag, msgCanon(r.msg), r.err))
+			}
+		default:
+			if r.err != nil {
+				o.Violate("C09/agent-result-differs-from-solo-run", fmt.Sprintf("%s: unexpected error %s", tag, firstLine(r.err.Error())))
+			} else if got := msgCanon(stripIndex(r.msg)); got != ex.final {
+				o.Violate("C09/agent-result-differs-from-solo-run", fmt.Sprintf("%s: expected %q, got %q", tag, ex.final, got))
+			}
+		}
+		seen := env.modelSeen[tag]
+		for k := 0; k < len(seen) && k < len(ex.history); k++ {
+			if seen[k] != ex.history[k] {
+				o.Violate("C09/agent-history-mixed-up", fmt.Sprintf("%s: model call %d saw [%s], expected [%s]", tag, k, seen[k], ex.history[k]))
+				break
+			}
+		}
+	}
+	o.Stat("scenario.react_concurrent", 1)
+	o.Stat("callers", nc)
+	return o
+}
+
+func init() {
+	core.AltRunners["C09"] = runC09React
+}
